@@ -9,7 +9,7 @@ namespace Cotengra.Slicing
 open Cotengra
 
 /-- the element of `a` (whose axes are labelled `axes`) at the assignment `σ` -/
-def denote (axes : List Ix) (a : Arr) (σ : Ix → Nat) : Int := a.get (axes.map σ)
+def denote (axes : List Ix) (a : IArr) (σ : Ix → Nat) : Int := a.get (axes.map σ)
 
 theorem map_insertIdx {α β : Type _} (f : α → β) (l : List α) (k : Nat) (x : α) :
     (l.insertIdx k x).map f = (l.map f).insertIdx k (f x) := by
@@ -21,11 +21,11 @@ theorem map_insertIdx {α β : Type _} (f : α → β) (l : List α) (k : Nat) (
     | succ k => simp [List.insertIdx_succ_cons, ih]
 
 /-- `numpy.stack` in labelled form: the new axis `r` at position `k` selects the operand -/
-theorem denote_stack (axes : List Ix) (r : Ix) (k : Nat) (hk : k ≤ axes.length) (arrs : List Arr)
+theorem denote_stack (axes : List Ix) (r : Ix) (k : Nat) (hk : k ≤ axes.length) (arrs : List IArr)
     (σ : Ix → Nat) :
-    denote (axes.insertIdx k r) (Arr.stack arrs k) σ = denote axes (arrs.getD (σ r) Arr.zero) σ := by
+    denote (axes.insertIdx k r) (IArr.stack arrs k) σ = denote axes (arrs.getD (σ r) IArr.zero) σ := by
   have hk' : k ≤ (axes.map σ).length := by simpa using hk
-  simp only [denote, Arr.stack, map_insertIdx, List.eraseIdx_insertIdx_self,
+  simp only [denote, IArr.stack, map_insertIdx, List.eraseIdx_insertIdx_self,
     List.getD_eq_getElem?_getD, List.getElem?_insertIdx_self, hk', if_true, Option.getD_some]
 
 /-- axes left when the indices `d` are dropped from `out` -/
@@ -137,12 +137,12 @@ theorem outputPos_split (sl : List SliceInfo) (out : List Ix) (hn : out.Nodup) (
 
 /-! ### chunks -/
 
-def optGet (o : Option Arr) (idx : List Nat) : Int :=
+def optGet (o : Option IArr) (idx : List Nat) : Int :=
   match o with
   | some a => a.get idx
   | none => 0
 
-theorem chunkGet_chunkAdd (ch : List (List Nat × Arr)) (k key : List Nat) (s : Arr) :
+theorem chunkGet_chunkAdd (ch : List (List Nat × IArr)) (k key : List Nat) (s : IArr) :
     chunkGet (chunkAdd ch k s) key =
       if k = key then some (match chunkGet ch key with
         | some a => a.add s
@@ -173,19 +173,19 @@ theorem chunkGet_chunkAdd (ch : List (List Nat × Arr)) (k key : List Nat) (s : 
         simp only [List.lookup, this]
         exact ih
 
-theorem optGet_chunkAdd (ch : List (List Nat × Arr)) (k key : List Nat) (s : Arr) (idx : List Nat) :
+theorem optGet_chunkAdd (ch : List (List Nat × IArr)) (k key : List Nat) (s : IArr) (idx : List Nat) :
     optGet (chunkGet (chunkAdd ch k s) key) idx =
       optGet (chunkGet ch key) idx + (if k = key then s.get idx else 0) := by
   rw [chunkGet_chunkAdd]
   by_cases h : k = key
   · simp only [h, if_true]
-    cases chunkGet ch key <;> simp [optGet, Arr.add]
+    cases chunkGet ch key <;> simp [optGet, IArr.add]
   · simp [h]
 
 /-- after the summation loop, `chunks[key]` holds the sum of the slices whose output key is
     `key` (here: slices `i, …, i+m-1` given by `S`) -/
-theorem buildChunksFrom_spec (sl : List SliceInfo) (opos : List (Ix × Nat)) (S : Nat → Arr)
-    (key : List Nat) (idx : List Nat) (m i : Nat) (ch : List (List Nat × Arr)) :
+theorem buildChunksFrom_spec (sl : List SliceInfo) (opos : List (Ix × Nat)) (S : Nat → IArr)
+    (key : List Nat) (idx : List Nat) (m i : Nat) (ch : List (List Nat × IArr)) :
     optGet (chunkGet (buildChunksFrom sl opos i ((List.range' i m).map S) ch) key) idx =
       optGet (chunkGet ch key) idx +
         ((List.range' i m).map fun j => if chunkKey sl opos j = key then (S j).get idx else 0).sum ∧
@@ -257,8 +257,8 @@ def ValidVals (sl : List SliceInfo) : List (Ix × Nat) → List Nat → Prop
   | p :: rem, v :: vals => v ∈ rangeOf sl p.1 ∧ ValidVals sl rem vals
   | _, _ => False
 
-theorem allSome_map (l : List Nat) (f : Nat → Option Arr) (h : ∀ d ∈ l, (f d).isSome = true) :
-    allSome (l.map f) = some (l.map fun d => (f d).getD Arr.zero) := by
+theorem allSome_map (l : List Nat) (f : Nat → Option IArr) (h : ∀ d ∈ l, (f d).isSome = true) :
+    allSome (l.map f) = some (l.map fun d => (f d).getD IArr.zero) := by
   induction l with
   | nil => rfl
   | cons a t ih =>
@@ -268,7 +268,7 @@ theorem allSome_map (l : List Nat) (f : Nat → Option Arr) (h : ∀ d ∈ l, (f
     simp only [List.map_cons, hx, allSome, iht, Option.map_some, Option.getD_some]
 
 theorem stackRec_spec (sl : List SliceInfo) (out : List Ix) (hn : out.Nodup)
-    (ch : List (List Nat × Arr)) (σ : Ix → Nat)
+    (ch : List (List Nat × IArr)) (σ : Ix → Nat)
     (rem D : List (Ix × Nat)) (loc : List Nat)
     (hsplit : outputPos sl out = D ++ rem) (hlen : loc.length = D.length)
     (hr : ∀ p ∈ rem, InRange sl σ p.1)
@@ -330,8 +330,8 @@ theorem stackRec_spec (sl : List SliceInfo) (out : List Ix) (hn : out.Nodup)
     have hir := hr (ix, pos) List.mem_cons_self
     rw [← hins, hk, ← hax]
     rw [denote_stack _ _ _ (by rw [hax]; exact hle)]
-    have hget : ((rangeOf sl ix).map fun d => (stackRec sl ch rem (loc ++ [d])).getD Arr.zero).getD
-        (σ ix) Arr.zero = (stackRec sl ch rem (loc ++ [val sl σ ix])).getD Arr.zero := by
+    have hget : ((rangeOf sl ix).map fun d => (stackRec sl ch rem (loc ++ [d])).getD IArr.zero).getD
+        (σ ix) IArr.zero = (stackRec sl ch rem (loc ++ [val sl σ ix])).getD IArr.zero := by
       rw [List.getD_eq_getElem?_getD, List.getElem?_map, rangeOf_get sl σ ix hir]
       rfl
     rw [hget]
@@ -518,13 +518,13 @@ theorem exists_slice_of_vals (sl : List SliceInfo) (hwf : WF sl) (hnd : (sl.map 
     rw [hkeys] at hix
     exact (List.mem_filter.1 hix).2
 
-theorem get_foldl_add (l : List Arr) (a : Arr) (idx : List Nat) :
-    (l.foldl Arr.add a).get idx = a.get idx + (l.map (·.get idx)).sum := by
+theorem get_foldl_add (l : List IArr) (a : IArr) (idx : List Nat) :
+    (l.foldl IArr.add a).get idx = a.get idx + (l.map (·.get idx)).sum := by
   induction l generalizing a with
   | nil => simp
   | cons b t ih =>
     rw [List.foldl_cons, ih, List.map_cons, List.sum_cons]
-    simp only [Arr.add]
+    simp only [IArr.add]
     omega
 
 end Cotengra.Slicing
